@@ -128,6 +128,8 @@ def readRecords (shift : Nat) : Nat → List Nat → Option (Option (List Nat ×
 def trackFromBytes (bytes : List Nat) : Option (Option (Track × List Nat)) :=
   match bytes with
   | mode :: cyl :: head :: secs :: shift :: r0 =>
+    -- `sector_shift==0xff` (inhomogeneous sizes) and `sector_shift>6` are refused before anything else is read
+    if shift > 6 then some none else
     if r0.length < secs then some none else
     let smap := r0.take secs
     let r1 := r0.drop secs
@@ -188,13 +190,13 @@ def findEof : List Nat → Option Nat
   | b :: bs => if b = 0x1A then some 0 else (findEof bs).map (· + 1)
 
 /-- `Imd::from_bytes` (imd.rs:584-657) on the byte level: `none` = panic, `some none` = `Err`.
-The signature test accepts `IMD 0.` and `IMD 1.`; a missing 0x1A makes Rust slice `data[29..0]`, a panic. -/
+The signature test accepts `IMD 0.` and `IMD 1.`; a missing 0x1A and an image without tracks are `Err`. -/
 def fromBytes (data : List Nat) : Option (Option Image) :=
   if data.length < 29 then some none else
   let header := data.take 29
   if ¬ (header.take 4 = [73, 77, 68, 32] ∧ (header.drop 4).take 2 ∈ [[48, 46], [49, 46]]) then some none else
   match findEof (data.drop 29) with
-  | none => none  -- `data[29..0]`: slice start after slice end, a panic
+  | none => some none  -- `ptr==0`: "IMD comment terminator not found", `Err(IllegalValue)`
   | some k =>
     let comment := (data.drop 29).take k
     match readTracks data.length (data.drop (29 + k + 1)) with
@@ -202,7 +204,7 @@ def fromBytes (data : List Nat) : Option (Option Image) :=
     | some none => some none
     | some (some ts) =>
       match ts with
-      | [] => none  -- `ans.tracks[0]` panics when there is no track
+      | [] => some none  -- "IMD has no tracks": `Err(UnexpectedSize)`
       | _ => some (some { header := header, comment := comment, tracks := ts })
 
 end A2Verif.Model.C09Imd
